@@ -34,7 +34,16 @@ func verifResolve(v any, ptr []string) (any, bool) {
 
 // verifCheckSchemaError: the pointer resolves inside v and Value is what is found there.
 func verifCheckSchemaError(se *SchemaError, v any, what string) {
-	ptr := se.JSONPointer()
+	ptr := append([]string(nil), se.JSONPointer()...)
+	// reading the pointer is not an event: a second reading gives the same tokens
+	again := se.JSONPointer()
+	same := len(again) == len(ptr)
+	for i := range ptr {
+		if same && again[i] != ptr[i] {
+			same = false
+		}
+	}
+	verifAssert(same, "C12 "+what+": the JSON pointer of a schema error reads the same every time")
 	if se.SchemaField == "required" && len(ptr) > 0 {
 		ptr = ptr[:len(ptr)-1] // points at the missing member: the enclosing object must exist
 	}
